@@ -32,9 +32,11 @@ func MakeFromRequest(r *http.Request) CacheKey {
 		scheme = "https"
 	}
 	normHost := strings.ToLower(r.Host)
-	normPath := path.Clean(r.URL.Path)
+	// The path as it is on the wire: a percent-encoded reserved character ("%2F", "%3F", "%23")
+	// is not the same path as its decoded form, so the key is built from the escaped path.
+	rawPath := r.URL.EscapedPath()
+	normPath := path.Clean(rawPath)
 	// path.Clean drops a trailing slash, but "/dir/" and "/dir" are different resources.
-	rawPath := r.URL.Path
 	if normPath != "/" && (strings.HasSuffix(rawPath, "/") || strings.HasSuffix(rawPath, "/.") || strings.HasSuffix(rawPath, "/..")) {
 		normPath += "/"
 	}
